@@ -53,10 +53,9 @@ def run(ctx):
     for k in range(shards):
         out = ctx.path("fault-%d.ndjson" % k)
         files.append(out)
-        procs.append(subprocess.Popen([drv, "faults", "-seed", str(ctx.seed), "-scen", sf, "-out", out, "-shard", str(k), "-shards", str(shards)],
-                                      cwd=ctx.scratch, env=ctx.env, stdout=subprocess.PIPE, stderr=subprocess.PIPE, text=True))
+        procs.append(ctx.spawn([drv, "faults", "-seed", str(ctx.seed), "-scen", sf, "-out", out, "-shard", str(k), "-shards", str(shards)]))
     for p in procs:
-        o_, e = p.communicate(timeout=3000)
+        rc_, o_, e = ctx.wait(p)
         if p.returncode != 0:
             raise Undecided("faults driver failed (a source failure that kills the process instead of panicking is not observable in-process): " + (e or o_)[-800:])
     files = [f for f in files if os.path.getsize(f) > 0]
